@@ -54,7 +54,7 @@ theorem getPool_dequeue (s : State) (id id2 : PoolId) (h : Int) : getPool (deque
 
 theorem updErr_sameStakes {s s1 : State} {id : PoolId} {p : Pool} {e : Err} (hp : getPool s id = some p)
     (h : UpdErr s s1 id p e) : SameStakes s s1 := by
-  rcases h.pools with hpl | ⟨rs, hpl⟩
+  rcases h.pools with hpl | ⟨rs, hpl, _⟩
   · exact ⟨h.farmers, fun id2 => by unfold C05.lockedOf getPool; rw [hpl]⟩
   · exact sameStakes_set hp hpl h.farmers rfl
 
